@@ -48,6 +48,9 @@ def run(ctx):
     import r_c
     ctx.run_rule("W1C", r_c.rule_W1C)
     # no kernel is selected on a CPU / OS that cannot run it: the probes and the CPUID decode of the C dispatcher
+    import r_xof
+    ctx.run_rule("X0", r_xof.rule_X0, [c for c in cfgs if c.startswith("asm")])
+    ctx.run_c_rule("X0C", r_c.rule_X0C, ["gnu-x86_64"])
     for nm in ("D1C", "D3C", "D4C"):
         ctx.run_c_rule(nm, getattr(r_c, "rule_" + nm), ["gnu-x86_64", "msvc-x86_64"] if ctx.tier == "quick" else list(r_c.C_FLAVOURS))
     ctx.run_c_rule("M1C", r_c.rule_M1C, ["gnu-x86_64", "msvc-x86_64"] if ctx.tier == "quick" else list(r_c.C_FLAVOURS))
